@@ -1,6 +1,7 @@
 CONSTANTS
   Kinds <- MCKinds
   FailKinds <- MCFail
+  TargetOf <- MCTarget
   MaxHist = 3
   Deviation = "none"
 SPECIFICATION Spec
